@@ -140,7 +140,8 @@ class VCSAPI:
         cmd_parts = [part.format(**kwargs) for part in shlex.split(cmd_tmpl)]
         output_data: bytes = sp.check_output(cmd_parts, env=env, stderr=sp.PIPE)
 
-        return output_data.decode("utf-8")
+        # NOTE: names of tags and files are not necessarily valid utf-8
+        return output_data.decode("utf-8", errors="replace")
 
     @property
     def is_usable(self) -> bool:
